@@ -168,6 +168,17 @@ func imgRun(r *hx.Run, c imgCase) (string, error) {
 			r.Count("img-close-hang")
 		}
 	}()
+	stop := make(chan struct{})
+	defer close(stop)
+	go func() { // keep the event queue moving (Redraw of the encoders, start-up leftovers)
+		for {
+			select {
+			case <-vx.Events():
+			case <-stop:
+				return
+			}
+		}
+	}()
 	var out strings.Builder
 	timeout := ""
 	phase := func(name string, f func()) bool {
@@ -223,13 +234,9 @@ func imgRun(r *hx.Run, c imgCase) (string, error) {
 		im.Resize(c.rw, c.rh)
 		switch k := im.(type) {
 		case *vaxis.KittyImage, *vaxis.Sixel:
-			// the encoder goroutine posts Redraw when it is done and then clears its `encoding` flag:
-			// wait for the event, then for the flag (synchronisation only; the time-out above is the failure bound)
-			for ev := range vx.Events() {
-				if _, ok := ev.(vaxis.Redraw); ok {
-					break
-				}
-			}
+			// Resize sets the object's `encoding` flag before it starts the encoder goroutine; the goroutine posts
+			// Redraw (drained below) and clears the flag when it returns: wait for the flag (synchronisation only;
+			// the time-out of the phase is the failure bound, no verdict depends on it)
 			for {
 				busy := false
 				if ki, ok := k.(*vaxis.KittyImage); ok {
@@ -330,6 +337,31 @@ func imgCases(r *hx.Run, rng *gen.Rng, per int) error {
 				}
 				c.seed = k.U64() % 1000000
 				c.rw, c.rh = k.Range(1, c.cols), k.Range(1, c.rows)
+				// a picture scaled down to zero pixels on one side cannot be encoded at all (C20's ground): keep the
+				// scenarios to pictures that survive the resize under both cell geometries in play
+				for try := 0; ; try++ {
+					cpw, cph := 1, 1
+					if c.xpix/c.cols > 0 {
+						cpw = c.xpix / c.cols
+					}
+					if c.ypix/c.rows > 0 {
+						cph = c.ypix / c.rows
+					}
+					a1, b1 := vaxis.VerifResizeDims(c.iw, c.ih, c.rw, c.rh, cpw, cph)
+					a2, b2 := vaxis.VerifResizeDims(c.iw, c.ih, c.rw, c.rh, 1, 2)
+					if a1 > 0 && b1 > 0 && a2 > 0 && b2 > 0 {
+						break
+					}
+					if try > 12 {
+						break
+					}
+					if try > 8 {
+						c.iw, c.ih, c.rw, c.rh = 2, 2, c.cols, c.rows
+						r.Count("img-resize-fallback")
+						continue
+					}
+					c.rw, c.rh = k.Range(1, c.cols), k.Range(1, c.rows)
+				}
 				c.wx, c.wy = k.Range(0, c.cols/2), k.Range(0, c.rows/2)
 				c.ww, c.wh = k.Range(1, c.cols), k.Range(1, c.rows)
 				if k.Chance(1, 2) {
